@@ -29,6 +29,9 @@ func (p *Prog) readOnlyMethods() []*ssa.Function {
 		if !hasPrefixAny(n, "mxj.Map.", "mxj.MapSeq.", "mxj.Maps.") {
 			continue
 		}
+		if n == "mxj.Map.NewMap" {
+			continue // the projection is the subject of C12 (checked there with the same rule)
+		}
 		out = append(out, f)
 	}
 	return out
